@@ -715,11 +715,22 @@ Definition model_node_check (s : summary) (payload : option (list N)) (mo : pmod
                                           | Some ai => acc_is s payload ai (fst (fst (snd w))) (snd (fst (snd w))) (snd (snd w))
                                           | None => false end) want) "attribute-image"
              ++ key_if (match amap_get "POSITION" (gp_attrs p) with Some ai => has_bounds s ai | None => true end) "position-bounds"
+             (* the index accessor stores the mesh's indices unchanged, in an unsigned integer type whose
+                reserved maximum (primitive restart) none of them reaches; which adequate width is
+                chosen is not prescribed here (the correspondence pins the writer's own rule) *)
              ++ key_if (match gp_idx p with
                         | Some ii =>
-                            acc_is s payload ii (if 65535 <? attr_len m then 5125 else 5123) 1
-                                   (plain (map (fun i => [i]) (me_idx m)))
+                            match nthN (s_accs s) ii with
+                            | Some a => is_index_comp (a_comp a)
+                                        && acc_is s payload ii (a_comp a) 1 (plain (map (fun i => [i]) (me_idx m)))
+                            | None => false end
                         | None => false end) "index-image"
+             ++ key_if (match gp_idx p with
+                        | Some ii =>
+                            match nthN (s_accs s) ii with
+                            | Some a => forallb (fun i => i + 1 <? 2 ^ (8 * code_size (a_comp a))) (me_idx m)
+                            | None => false end
+                        | None => false end) "index-width"
              ++ key_if (match mo_mat mo, gp_mat p with
                         | None, None => true
                         | Some pm, Some gi => match nthN (s_mats s) gi with Some g => mat_matches s pm g | None => false end
